@@ -63,6 +63,54 @@ func sameFloat(a, b float64) bool {
 	return math.Float64bits(a) == math.Float64bits(b)
 }
 
+func relClose(a, b, tol float64) bool {
+	if math.IsNaN(a) || math.IsNaN(b) || math.IsInf(a, 0) || math.IsInf(b, 0) {
+		return false
+	}
+	return math.Abs(a-b) <= tol*math.Max(math.Abs(a), math.Abs(b))
+}
+
+// agrees1 decides a unary thin wrapper. Go's math is the yardstick bit for bit, except where Go's
+// amd64 implementation is itself off the function's definition by far more than rounding; there
+// the definition is checked through an identity:
+//   log, log10 of a subnormal x: log(x) = log(x*2^54) - 54 log 2 (Go's Log does not normalise x);
+//   log10(10^n) = n exactly (C's log10; Go computes log2(x)*(Ln2/Ln10));
+//   exp, sinh, cosh just below their overflow thresholds 709.78 / 710.47 are finite:
+//   e^x = (e^(x/2))^2 (Go's Exp gives up from about 709.1 on).
+func agrees1(fn string, x, got, goWant float64) bool {
+	sub := x > 0 && x < 0x1p-1022
+	switch fn {
+	case "log":
+		if sub {
+			return relClose(got, math.Log(x*0x1p54)-54*math.Ln2, 1e-13)
+		}
+	case "log10":
+		if !sub && x > 0 && !math.IsInf(x, 0) {
+			if n := math.Round(math.Log10(x)); n >= -307 && n <= 308 && math.Pow10(int(n)) == x {
+				return got == n
+			}
+		}
+		if sub {
+			return relClose(got, math.Log10(x*0x1p54)-54*(math.Ln2/math.Ln10), 1e-13)
+		}
+	case "exp":
+		if math.IsInf(goWant, 1) && x < 709.782712893384 {
+			h := math.Exp(x / 2)
+			return relClose(got, h*h, 1e-13)
+		}
+	case "sinh", "cosh":
+		if math.IsInf(goWant, 0) && math.Abs(x) < 710.4758600739439 {
+			h := math.Exp(math.Abs(x) / 2)
+			w := h * 0.5 * h
+			if fn == "sinh" {
+				w = math.Copysign(w, x)
+			}
+			return relClose(got, w, 1e-13)
+		}
+	}
+	return sameFloat(got, goWant)
+}
+
 func mathNontrivial(xs []float64, nominal int) bool {
 	if len(xs) != nominal {
 		return true
@@ -92,6 +140,10 @@ func runMath(w *lib.Writer, c mathIn) {
 		runRandom(w, c, xs, largs, cargs)
 		return
 	}
+	if fn == "huge" {
+		checkHuge(w)
+		return
+	}
 	res, errs := callMath(fn, largs...)
 	var outs []float64
 	shapeOK := true
@@ -103,12 +155,19 @@ func runMath(w *lib.Writer, c mathIn) {
 		outs = append(outs, float64(n))
 	}
 	if f1, ok := goOnly1[fn]; ok {
-		good := (len(xs) == 0 && errs != "") || (len(xs) >= 1 && errs == "" && len(outs) == 1 && sameFloat(outs[0], f1(xs[0])))
+		good := (len(xs) == 0 && errs != "") || (len(xs) >= 1 && errs == "" && len(outs) == 1 && agrees1(fn, xs[0], outs[0], f1(xs[0])))
 		goSide(w, c, good, outs, errs)
 		return
 	}
 	if f2, ok := goOnly2[fn]; ok {
-		good := (len(xs) < 2 && errs != "") || (len(xs) >= 2 && errs == "" && len(outs) == 1 && sameFloat(outs[0], f2(xs[0], xs[1])))
+		want := math.NaN()
+		if len(xs) >= 2 {
+			want = f2(xs[0], xs[1])
+			if fn == "atan2" && !math.IsNaN(want) && math.Signbit(want) != math.Signbit(xs[0]) {
+				want = -want // C99 F.9.1.4: atan2 has the sign of y; Go's Atan2 loses it when y/x underflows
+			}
+		}
+		good := (len(xs) < 2 && errs != "") || (len(xs) >= 2 && errs == "" && len(outs) == 1 && sameFloat(outs[0], want))
 		goSide(w, c, good, outs, errs)
 		return
 	}
@@ -245,6 +304,10 @@ func mathCorpus(w *lib.Writer) {
 		{Fn: "math.floor", Bits: []string{fbits(3.7)}, AsStr: true}, {Fn: "math.ldexp", Bits: []string{fbits(1), fbits(3)}, AsStr: true},
 		{Fn: "math.random", Bits: []string{fbits(4), fbits(4)}, AsStr: true}, {Fn: "math.max", Bits: []string{fbits(1), fbits(-2.5)}, AsStr: true},
 		{Fn: "math.fmod", Bits: []string{fbits(-7), fbits(3)}, AsStr: true},
+		mIn("atan2", -1e-200, -1e200), mIn("atan2", -5e-324, -2), mIn("atan2", 1e-300, -1e30), // sign of y (fixed)
+		mIn("log", 1e-320), mIn("log", 5e-324), mIn("log10", 1e-310), mIn("log10", 5e-324), // subnormals (fixed)
+		mIn("log10", 1e15), mIn("log10", 0.1), mIn("log10", 1e-4), mIn("log10", 1e29),     // powers of ten (fixed)
+		mIn("exp", 709.5), mIn("exp", 709.78), mIn("exp", 709.79), mIn("sinh", 710), mIn("sinh", -710), mIn("cosh", 710), mIn("cosh", 710.5), // early overflow (fixed)
 		mIn("deg", 2e306), mIn("rad", 1e308), mIn("rad", math.MaxFloat64), mIn("deg", 5e-324), mIn("rad", 5e-324), // x*180/pi overflowed (fixed)
 		mIn("pow", 2, 10), mIn("atan2", 1, 2),
 		mIn("pow", math.Copysign(0, -1), 0.5), mIn("pow", math.Inf(-1), 0.5), // seeded C15-1: pow is not sqrt at -0 / -Inf
@@ -346,6 +409,24 @@ func genMath(w *lib.Writer, r *lib.Rand, tier string) {
 	for k := 0; k < 20; k++ {
 		runMath(w, mathIn{Fn: "math.random", Rep: k})
 	}
+	// where Go's own math is not the yardstick (see agrees1): powers of ten, subnormals, the last stretch
+	// before overflow, quotients that underflow
+	for n := -307; n <= 308; n++ {
+		runMath(w, mIn("log10", math.Pow10(n)))
+	}
+	for k := 0; k < 60*reps; k++ {
+		sub := math.Float64frombits(r.U64() >> uint(12+r.Intn(52)))
+		runMath(w, mIn("log", sub))
+		runMath(w, mIn("log10", sub))
+		runMath(w, mIn("exp", 709+float64(r.Intn(800))/1000))
+		runMath(w, mIn("sinh", math.Copysign(709.5+float64(r.Intn(1000))/1000, float64(r.Intn(2))-0.5)))
+		runMath(w, mIn("cosh", math.Copysign(709.5+float64(r.Intn(1000))/1000, float64(r.Intn(2))-0.5)))
+		y := math.Ldexp(float64(r.Range(1, 1<<20)), -r.Range(500, 1074))
+		x := math.Ldexp(float64(r.Range(1, 1<<20)), r.Range(0, 900))
+		runMath(w, mIn("atan2", -y, -x))
+		runMath(w, mIn("atan2", y, -x))
+	}
+	checkHuge(w)
 	// thin wrappers against Go's math, bit for bit (sign of zero, NaN-ness): every pool and grid value for
 	// the unary ones, the full grid x grid for the binary ones (special values as base AND exponent), then
 	// random arguments; argument order and arity
@@ -395,6 +476,13 @@ func genMath(w *lib.Writer, r *lib.Rand, tier string) {
 			runMath(w, mIn(fn, x))
 		}
 	}
+}
+
+// checkHuge: math.huge is HUGE_VAL, "a value larger than or equal to any other numerical value".
+func checkHuge(w *lib.Writer) {
+	L := state()
+	v, ok := L.GetField(L.GetGlobal("math"), "huge").(lua.LNumber)
+	goSide(w, mathIn{Fn: "math.huge"}, ok && math.IsInf(float64(v), 1), []float64{float64(v)}, "")
 }
 
 // mathGrid: special values used as every argument of the binary functions (base and exponent, y and x,
